@@ -49,6 +49,31 @@ def cases(rng, tier):
         yield Case(program=gen.render(t), stdin="line1\nline2\n", mode='events', tag='events', monitor='c19_nested',
                    nontrivial=gen.size(t) >= 6)
     yield from deep_cases(rng, tier)
+    yield from io_failure_cases(rng, tier)
+
+
+def io_failure_cases(rng, tier):
+    """exceptions raised while the front end is *performing* an action (in the outermost evaluation context, not
+    inside a delayed expression): continuation returns a non-action / throws, failing file open / operation,
+    with and without a ㄱㄹ handler, at several bind depths"""
+    from ..gen import str_lit, render, enc
+    missing = render(str_lit("none.txt"))
+    fails = [
+        "ㄱ ㄱㅅㅎㄴ (ㄱㅇㄱ ㅎ) ㄱㄹㅎㄷ",                                   # continuation returns a number
+        "ㄱ ㄱㅅㅎㄴ (ㄹ ㄷㅂㅎㄴ ㄷㅈㅎㄴ ㅎ) ㄱㄹㅎㄷ",                        # continuation throws
+        "ㄹㅎㄱ (ㄱㅇㄱ ㄴ ㄷㅎㄷ ㄱㅅㅎㄴ ㅎ) ㄱㄹㅎㄷ",                         # continuation's action fails when performed (str + int)
+        f"{missing} ㄹ ㄱㄴㅎㄷ",                                           # open a missing file
+        f"{missing} ㄹ ㄱㄴㅎㄷ (ㄱㅇㄱ ㄱㅅㅎㄴ ㅎ) ㄱㄹㅎㄷ",
+        f"{missing} ㅈㄹ ㄱㄴㅎㄷ (ㄹ ㄹ ㄱㅇㄱ ㅎㄷ ㅎ) ㄱㄹㅎㄷ",               # read on a write-only handle
+        "(ㄴ ㄱ ㄴㄴㅎㄷ) ㄱㅅㅎㄴ",                                          # ㄱㅅ forcing a failing payload when performed
+        "ㄴ ㅈㄹㅎㄴ",                                                     # ㅈㄹ of a non-string: fails at evaluation (control)
+    ]
+    H = "(ㄱㅇㄱ ㄱㅅㅎㄴ ㅎ)"
+    for f in fails:
+        yield Case(program=f, stdin="l1\nl2\n", mode='events', tag='io-fail', monitor='c19_nested')
+        yield Case(program=f"({f}) (ㄱㅇㄱ ㄱㅅㅎㄴ ㅎ) {H} ㄱㄹㅎㄹ", stdin="l1\nl2\n", mode='events', tag='io-fail-handled', monitor='c19_nested')
+        yield Case(program=f"(ㄴ ㄱㅅㅎㄴ) (({f}) ㅎ) ㄱㄹㅎㄷ", stdin="l1\nl2\n", mode='events', tag='io-fail-nested', monitor='c19_nested')
+        yield Case(program=f"(ㄴ ㄱㅅㅎㄴ) (({f}) ㅎ) ㄱㄹㅎㄷ (ㄱㅇㄱ ㄱㅅㅎㄴ ㅎ) ㄱㄹㅎㄷ", stdin="l1\nl2\n", mode='events', tag='io-fail-nested2', monitor='c19_nested')
 
 
 def deep_cases(rng, tier):
@@ -80,7 +105,7 @@ SPEC = {
     'rule': 'typed programs (60 %), ill-typed / throwing calls (20 %) and I/O bind programs (20 %) run with a passive '
             'recording DebuggerBase subclass: the stream must be a balanced bracket word with depth = nesting + 1, end at '
             'depth 0 for value and exception outcomes, equal the model machine\'s stream event by event, and result / '
-            'exception / stdout / consumed stdin must equal those of the run without observer; plus long tail loops (5 shapes × 50 … 6000 / 20000 iterations), non-tail recursion 300 … 1600 deep, the frame-limit abort and a throw from the bottom of a 2600-iteration loop (caught / uncaught), all under the observer. Non-trivial = ≥ 6 nodes',
+            'exception / stdout / consumed stdin must equal those of the run without observer; plus long tail loops (5 shapes × 50 … 6000 / 20000 iterations), non-tail recursion 300 … 1600 deep, the frame-limit abort and a throw from the bottom of a 2600-iteration loop (caught / uncaught), all under the observer; exceptions raised while an action is being performed (non-action continuation, throwing continuation, failing file open / operation, with / without handler, nested in binds). Non-trivial = ≥ 6 nodes',
     'trusted': [],
     'assumptions': ['the stack-limit abort is excluded from "depth back to zero" (the loop is left by a raised RuntimeError)'],
 }
